@@ -72,10 +72,13 @@ def main():
     dirs = sorted(d for d in glob.glob(os.path.join(VERIF, "seeded", "C*-*")) if os.path.isfile(os.path.join(d, "patch.diff")))
     if only:
         dirs = [d for d in dirs if os.path.basename(d) in only]
-    with ThreadPoolExecutor(max_workers=jobs) as ex:
-        res = list(ex.map(lambda d: one(d, tier), dirs))
-    if only:
-        return
+    if "--report-only" in a:  # rewrite MATRIX.md from the outcomes stored in the meta.json files
+        res = [(os.path.basename(d), json.load(open(os.path.join(d, "meta.json"))).get("matrix", {})) for d in dirs]
+    else:
+        with ThreadPoolExecutor(max_workers=jobs) as ex:
+            res = list(ex.map(lambda d: one(d, tier), dirs))
+        if only:
+            return
     lines = ["# Planted changes: outcome with the framework as committed", "",
              "Produced by `lib/seedmatrix.py` (each change applied to a scratch worktree of /repo HEAD, the property's quick check run against it).", "",
              "| change | summary | caught by | clauses |", "|---|---|---|---|"]
